@@ -7,7 +7,10 @@ pub fn expected(v: &RView) -> Expect {
     // C1 (T10): the repetitive sequence (21 .. 59a) must not be present more than ten times
     e.must_if(seqs.len() > 10, "T10");
     // C2 (C02): the currency code in 32a must be the same for all occurrences of the field in the message
-    let ccys: BTreeSet<String> = all(&v.everything(), "32[AB]").iter().map(|f| ccy_of(f)).collect();
+    let ccys: BTreeSet<String> = all(&v.everything(), "32[AB]")
+        .iter()
+        .map(|f| ccy_of(f))
+        .collect();
     e.must_if(ccys.len() > 1, "C02");
     e
 }
@@ -18,7 +21,11 @@ pub fn content_hook(tag: &str, src: &mut crate::choice::Src) -> Option<String> {
         "32A" | "32B" => {
             let c = *src.pick(&["USD", "USD", "USD", "USD", "EUR", "USD", "USD", "GBP"]);
             let a = *src.pick(&["100,", "250,50", "1,", "99,99"]);
-            if tag == "32A" { Some(format!("{}{c}{a}", crate::spec::gen_date6(src))) } else { Some(format!("{c}{a}")) }
+            if tag == "32A" {
+                Some(format!("{}{c}{a}", crate::spec::gen_date6(src)))
+            } else {
+                Some(format!("{c}{a}"))
+            }
         }
         _ => None,
     }
